@@ -71,3 +71,13 @@ void c15_set(struct reb_simulation* r, const double* P, int n){
 }
 
 int c15_sizeof_treecell(void){ return (int)sizeof(struct reb_treecell); }
+
+/* accelerations A[3*i..] = ax ay az */
+int c15_acc(struct reb_simulation* r, double* A, int cap){
+    int N = (int)r->N;
+    if (N > cap) return -1;
+    for (int i=0;i<N;i++){
+        A[3*i+0]=r->particles[i].ax; A[3*i+1]=r->particles[i].ay; A[3*i+2]=r->particles[i].az;
+    }
+    return N;
+}
